@@ -7,6 +7,7 @@ Line protocol of the scheduling model and of the random oracle (names are natura
 * `step   c step intervals weights mins script ndraws succ`    → `ok names verdicts consumed` (0 False, 1 True, 2 None)
      move `i` consumes `ndraws[i]` draws and succeeds iff `succ[i] = 1`; its criteria consumes one draw `u` and
      accepts iff `u < 1/2`
+* `defcycles given n` (`given` = `-` when `max_cycles` is left out)                 → `ok cycles`
 * `addmoves c op…` with `op = name:interval:weight:min:crit`    → `ok codes names intervals mins` (0 ok, 1 over-commit, 2 no criteria)
 * `rng index u n` | `rng choice n script` | `rng choicep weights script` | `rng sample n k script` | `rng integers lo hi script`
 -/
@@ -131,6 +132,14 @@ def handle : List String → String
       | .error e => s!"err {showErr (.rng e)}"
       | .ok (i, s') => s!"ok {i} {s.length - s'.length}"
     | _, _ => "bad-op"
+  | ["defcycles", given, n] =>
+    match n.toNat? with
+    | some n =>
+      if given == "-" then s!"ok {defaultCycles none n}"
+      else match given.toNat? with
+        | some c => s!"ok {defaultCycles (some c) n}"
+        | none => "bad-op"
+    | none => "bad-op"
   | ["rng", "sample", n, k, script] =>
     match n.toNat?, k.toNat?, ratList script with
     | some n, some k, some s =>
